@@ -232,7 +232,7 @@ void Client::drain()
         if (n == 0) break;
         received.append(tmp, n);
         st.bytes_recv += n;
-        reader.feed(tmp, n);
+        if (parse_http) reader.feed(tmp, n);
         if (read_burst) {
             if (sock->readable() > 0 && !read_timer) {
                 read_timer = true;
@@ -356,7 +356,7 @@ void Client::poke()
             if (have) {
                 st.await_ok.push_back(true);
                 advance = true;
-            } else if (st.peer_fin || st.reset || reader.broken) {
+            } else if (st.peer_fin || st.reset || (s.kind == Step::Await && reader.broken)) {
                 st.await_ok.push_back(false);
                 advance = true;
             } else if (!step_started) {
